@@ -1141,3 +1141,82 @@ def indexed_store_bounds(P, rep, rule="A2.store"):
                               key="%s|%s|%s" % (rule, F.qn, b.get("n")), witness="an input list that is longer than the list the vector was sized from")
     rep.ok(rule, "%d indexed stores into member vectors, all covered by a size fact of the same function" % n)
     rep.floor(rule, n, 12, "indexed stores into member vectors inside counting loops")
+
+
+# ------------------------------------------------------------------------------------------------
+def _always_equal_members(P, cls, fa, fb):
+    """members fa and fb of cls are initialised from the same expression by every other constructor and assigned nowhere"""
+    if not fa or not fb:
+        return False
+    ctors = [G for G in P.funcs.values() if G.body is not None and G.inits and G.qn.rsplit("::", 1)[0] == cls]
+    seen = 0
+    for G in ctors:
+        ia = next((i for i in G.inits if i.get("field") == fa and i.get("c")), None)
+        ib = next((i for i in G.inits if i.get("field") == fb and i.get("c")), None)
+        if ia is None and ib is None:
+            continue
+        if ia is None or ib is None:
+            return False
+        if len(G.params) == 1 and cls.split("::")[-1] in (P.d(G.params[0]).get("t") or ""):
+            continue        # the copy constructor itself
+        if norm.render(P, ia["c"][0]) != norm.render(P, ib["c"][0]):
+            return False
+        seen += 1
+    if not seen:
+        return False
+    for G in P.funcs.values():
+        if G.body is None:
+            continue
+        for x in G.walk():
+            if x.get("k") in ("BinaryOperator", "CompoundAssignOperator", "CXXOperatorCallExpr") and x.get("op") in norm.ASSIGN_OPS:
+                kids = [z for z in x["c"] if z is not None]
+                t = sc(kids[-2]) if len(kids) >= 2 else None
+                while t is not None and subscript_of(t):
+                    t = sc(subscript_of(t)[0])
+                if t is not None and t.get("k") == "MemberExpr" and t.get("r") in (fa, fb):
+                    return False
+    return True
+
+
+def subscript_of(n):
+    return astq.subscript(n)
+
+
+def copy_members(P, rep, rule="COPY.members"):
+    """a hand-written copy constructor copies every member from the member of the same name"""
+    rep.rule(rule, "every user-written copy constructor in the library initialises member m from other.m (or from a call on other.m, "
+                   "e.g. other.m->clone()): schema types are cloned when they are nested in Array / OneOf / Object, so a member copied from "
+                   "a different member silently changes the schema a nested entry is validated against")
+    n = 0
+    for k, F in sorted(P.funcs.items()):
+        if F.body is None or not F.inits or len(F.params) != 1:
+            continue
+        fl = F.file or ""
+        if not ("/source/world_builder" in "/" + fl or "/include/world_builder" in "/" + fl):
+            continue
+        cls = F.qn.rsplit("::", 1)[0]
+        pt = (P.d(F.params[0]).get("t") or "")
+        if "&" not in pt or cls.split("::")[-1].split("<")[0] not in pt or F.name.split("<")[0] != cls.split("::")[-1].split("<")[0]:
+            continue
+        other = F.params[0]
+        for ini in F.inits:
+            if not ini.get("n") or not ini.get("c"):
+                continue
+            srcs = [y for root in ini["c"] if root is not None for y in F.walk(root)
+                    if y.get("k") == "MemberExpr" and y.get("c") and astq.is_ref_to(sc(y["c"][0]), other) and "(" not in (y.get("t") or "bound member")
+                    and "bound member" not in (y.get("t") or "")]
+            if not srcs:
+                continue        # initialised from a getter or a constant: not the memberwise pattern
+            n += 1
+            names = {y.get("n") for y in srcs}
+            if names != {ini["n"]} and len(names) == 1 and _always_equal_members(P, cls, ini.get("field"), srcs[0].get("r")):
+                rep.ok(rule, "%s: %s <- other.%s (the two members hold the same value in every object: initialised alike, never assigned)" % (
+                    cls.replace("WorldBuilder::", ""), ini["n"], list(names)[0]), F.loc, F.qn)
+                continue
+            if names == {ini["n"]}:
+                rep.ok(rule, "%s: %s <- other.%s" % (cls.replace("WorldBuilder::", ""), ini["n"], ini["n"]), F.loc, F.qn)
+            else:
+                rep.violation(rule, "%s copy constructor: member %s is copied from other.%s" % (cls.replace("WorldBuilder::", ""), ini["n"], "/".join(sorted(names))),
+                              F.loc, F.qn, norm.render(P, ini["c"][0])[:100], "a copy (clone) of the object differs from the original in that member",
+                              key="%s|%s|%s" % (rule, cls, ini["n"]), witness="a schema type nested in an Array or OneOf: the nested entry loses / changes that constraint")
+    rep.floor(rule, n, 20, "memberwise initialisers in copy constructors")
